@@ -37,6 +37,7 @@ ASSUMPTIONS = ['the error is defined as value x sigma% (a negative score has a n
                'orientation step; the composition over the t / mu / phi axes is covered by the bit-exact correspondence',
                'Apollo3: no Lean model; Reader and Picker are compared with each other and with a metamorphic ground truth']
 
+INTEG = re.compile(r'^(number of batches used: \d+\t)([-+0-9.eE]+)\t([-+0-9.eE]+)\s*$')
 ROW = re.compile(r'^(\s*)([-+0-9.eE]+) - ([-+0-9.eE]+)(\s+)([-+0-9.eE]+)(\s+)([-+0-9.eE]+)(\s+)([-+0-9.eE]+)(\s*)$')
 
 
@@ -246,7 +247,17 @@ def mutate_listing(text, seed):
         sigma = float(f'{rng.uniform(0.01, 99):.6e}')
         g = match.groups()
         return f'{g[0]}{g[1]} - {g[2]}{g[3]}{score:.6e}{g[5]}{sigma:.6e}{g[7]}{g[8]}{g[9]}'
-    return '\n'.join(ROW.sub(sub, line) for line in text.split('\n'))
+    def sub_integ(match):
+        # the energy-integrated result of a spectrum: score and relative sigma (%); a sigma printed as 0 (every batch gave
+        # the same value) and a score of 0 (nothing scored) are ordinary printed numbers
+        serial[0] += 1
+        score = float(f'{(serial[0] + rng.random()) * 10 ** rng.randrange(-3, 3):.6e}')
+        r = rng.random()
+        sigma = 0.0 if r < 0.25 else float(f'{rng.uniform(0.01, 99):.6e}')
+        if r > 0.9:
+            score = 0.0
+        return f'{match.group(1)}{score:.6e}\t{sigma:.6e}'
+    return '\n'.join(INTEG.sub(sub_integ, ROW.sub(sub, line)) for line in text.split('\n'))
 
 
 _WORK = {}
@@ -331,6 +342,17 @@ def run_listing(case):
             found.append(sorted(cells, key=lambda c: (c[0], c[1], c[2])))
         out['printed'] = printed
         out['found'] = found
+        # energy-integrated results: what the edition prints, what the datasets hold
+        last = parser.scan_res[number]
+        out['printed_integ'] = [[float(m.group(2)), float(m.group(3))] for m in
+                                (INTEG.match(line) for line in last.split('\n')) if m]
+        integ = []
+        for item in browser.content:
+            res = item.get('results')
+            for key, dset in (res.items() if isinstance(res, dict) else []):
+                if 'integrated' in key and hasattr(dset, 'value') and np.size(dset.value) == 1:
+                    integ.append([key, float(np.asarray(dset.value).ravel()[0]), float(np.asarray(dset.error).ravel()[0])])
+        out['found_integ'] = integ
         out['outcome'] = 'ok'
     except Exception as exc:  # pylint: disable=broad-except
         out['outcome'] = f'{type(exc).__name__}: {exc}'[:200]
@@ -476,6 +498,8 @@ def build_a3(path, rng):
     import h5py
     import numpy as np
     truth = {}
+    local = {}
+    build_a3.local = local
     with h5py.File(path, 'w') as hfile:
         nout = rng.choice([1, 2])
         info = hfile.create_group('info')
@@ -502,6 +526,16 @@ def build_a3(path, rng):
                 arr = np.array([rng.uniform(1, 9) for _ in range(ngr)], dtype='f8')
                 tot['FLUX'] = arr
                 truth[(oname, 'totaloutput', None, 'FLUX')] = arr
+            if rng.random() < 0.5:
+                # user ("local") values of the output: names padded with blanks, the same name may be stored more than once
+                lnames = rng.sample(['keff_user', 'power', 'Bu', 'leak'], rng.randrange(1, 4))
+                if rng.random() < 0.4:
+                    lnames.append(rng.choice(lnames))
+                lvals = np.array([rng.uniform(0, 50) for _ in lnames], dtype='f8')
+                lwidth = max(len(n) for n in lnames) + rng.choice([0, 3])
+                tot['LOCALNAME'] = np.array([n.encode().ljust(lwidth) for n in lnames], dtype=f'S{lwidth}')
+                tot['LOCALVALUE'] = lvals
+                local[oname] = sorted((n, float(v)) for n, v in zip(lnames, lvals))
             for zone in zones:
                 zgrp = out.create_group(zone)
                 isos = rng.sample(['U235', 'U238', 'O16', 'H1'], rng.randrange(0, 4))
@@ -544,8 +578,14 @@ def run_a3synth(case):
                         and list(dset.bins) == ['groups']
                         and np.array_equal(np.asarray(dset.bins['groups']), np.arange(len(stored))))
             seen = set()
+            local = build_a3.local
+            got_local = {}
             for item in Reader(path).to_browser().content:
                 key = (item.get('output'), item.get('zone'), item.get('isotope'), str(item.get('result_name')).lower())
+                if key[1] == 'totaloutput' and any(key[3] == n.lower() for n, _ in local.get(key[0], [])):
+                    got_local.setdefault(key[0], []).append((str(item.get('result_name')),
+                                                             float(np.asarray(item['results'].value).ravel()[0])))
+                    continue
                 match = [k for k in truth if (k[0], k[1], k[2], k[3].lower()) == key]
                 if not match:
                     out['reader_bad'].append(f'{key}: not stored in the file')
@@ -558,6 +598,10 @@ def run_a3synth(case):
             for key in truth:
                 if key not in seen:
                     out['reader_bad'].append(f'{key}: stored but absent from the Reader browser')
+            for oname, stored in local.items():
+                out['n'] += len(stored)
+                if sorted(got_local.get(oname, [])) != stored:
+                    out['reader_bad'].append(f'{oname}: local values stored {stored}, Reader gives {sorted(got_local.get(oname, []))}')
             picker = Picker(path)
             for (oname, zone, iso, name), stored in truth.items():
                 kwargs = {'output': oname, 'zone': zone, 'result_name': name}
@@ -697,6 +741,18 @@ def oracle(case, impl, run):
                               f'the content of any dataset'))
                 break
             unmatched.remove(hit)
+        # every energy-integrated dataset holds a printed score with value x printed sigma % as error (scores are made
+        # distinct by the rewriting of the listing; a dataset whose value is not a rewritten score is left alone)
+        for key, val, err in impl.get('found_integ', []):
+            cands = [sg for sc, sg in impl.get('printed_integ', []) if sc == val]
+            if not cands:
+                run.count('integ:not-rewritten')
+                continue
+            run.count('integ:checked')
+            if not any(err == val * sg * 0.01 or abs(err - val * sg * 0.01) <= 1e-12 * abs(val * sg * 0.01) for sg in cands):
+                fails.append(('error_eq_value_times_sigma', f"{case['file']}: {key} = {val} printed with sigma {cands} %: "
+                              f'error {err}, expected {[val * sg * 0.01 for sg in cands]}'))
+                break
         return fails
     if case['mode'] == 'editions':
         if impl.get('outcome') != 'ok':
